@@ -63,7 +63,13 @@ def create_linked_view(project, prefix=None, job_ids=None, path=None):
         for key_value in _nested_dicts_to_dotted_keys(job.statepoint())
         for item in key_value
     ]
-    bad_items = [item for item in item_list if isinstance(item, str) and os.sep in item]
+    # Values that are not strings (lists) are spelled with str() in the path: a separator
+    # inside one of their elements would end up in the path just the same.
+    bad_items = [
+        item
+        for item in item_list
+        if os.sep in (item if isinstance(item, str) else str(item))
+    ]
 
     if any(bad_items):
         err_msg = " ".join(
